@@ -33,7 +33,9 @@ type switchboard struct {
 
 	conns      sync.Map
 	connsCount uint32
-	randPool   sync.Pool
+	// addConnM serialises addConn so that a connection is stored before the count covering it is published
+	addConnM sync.Mutex
+	randPool sync.Pool
 
 	broken uint32
 }
@@ -55,9 +57,14 @@ func makeSwitchboard(sesh *Session) *switchboard {
 var errBrokenSwitchboard = errors.New("the switchboard is broken")
 
 func (sb *switchboard) addConn(conn net.Conn) {
-	connId := atomic.AddUint32(&sb.connsCount, 1) - 1
-	verifhook.Point("sb.addConn.mid")
+	// pickRandConn draws an index below connsCount, so the connection must be in the map
+	// before the count that includes it becomes visible
+	sb.addConnM.Lock()
+	connId := atomic.LoadUint32(&sb.connsCount)
 	sb.conns.Store(connId, conn)
+	verifhook.Point("sb.addConn.mid")
+	atomic.StoreUint32(&sb.connsCount, connId+1)
+	sb.addConnM.Unlock()
 	go sb.deplex(conn)
 }
 
